@@ -434,7 +434,7 @@ Third round (seed missed: an EMPTY argument in an EXCESS position was dropped fr
   empty.diff; all 94 differing quick-tier programs are exactly the ones the as-coded operator predicts.
 Fourth round (seed missed: SHIFT inside a nested repetition recomputed ARGCOUNT/ALLARGS of the wrong tag) - family
 `shiftloop` added; on a copy of the current /repo:
-  ExpandSHIFT calls ComputeMacroStrings(FirstInputTag) instead of (RunTag) -> RESULT4
+  ExpandSHIFT calls ComputeMacroStrings(FirstInputTag) instead of (RunTag) -> VIOLATION (shiftloop) (ctest 201/201)
 Corrupted traces (MacroProc_CorpusTrace on t_irpn): one token of a delivered body line changed, one delivered line
 dropped, exhausted flag flipped, depth changed -> each REJECTED at the corrupted event.
 All six proposed fixes applied together: 0 violations, no known finding hit, 201/201 golden tests.
